@@ -1,3 +1,4 @@
+mod ana;
 mod core;
 mod lsp;
 mod props;
@@ -11,9 +12,7 @@ fn usage() -> ! {
 
 fn main() {
     // Panics of the subject are caught and classified; keep stderr quiet.
-    if std::env::var_os("GMC_PANIC_VERBOSE").is_none() {
-        std::panic::set_hook(Box::new(|_| {}));
-    }
+    crate::core::install_panic_hook();
     let args: Vec<String> = std::env::args().collect();
     if args.len() < 2 {
         usage();
@@ -56,6 +55,9 @@ fn check(prop: &str, tier: Tier) -> i32 {
         "C01" => props::parser::run(props::parser::Which::C01, tier),
         "C02" => props::parser::run(props::parser::Which::C02, tier),
         "C03" => props::recovery::run(tier),
+        "C06" => props::ide_sweep::run(props::ide_sweep::Which::C06, tier),
+        "C10" => props::ide_sweep::run(props::ide_sweep::Which::C10, tier),
+        "C20" => props::ide_sweep::run(props::ide_sweep::Which::C20, tier),
         "C13" => props::positions::run_c13(tier),
         "C14" => props::positions::run_c14(tier),
         _ => {
@@ -80,6 +82,9 @@ fn replay(path: &str) -> i32 {
         "C01" => props::parser::replay(props::parser::Which::C01, w),
         "C02" => props::parser::replay(props::parser::Which::C02, w),
         "C03" => props::recovery::replay(w),
+        "C06" => props::ide_sweep::replay(props::ide_sweep::Which::C06, w),
+        "C10" => props::ide_sweep::replay(props::ide_sweep::Which::C10, w),
+        "C20" => props::ide_sweep::replay(props::ide_sweep::Which::C20, w),
         "C13" => props::positions::replay_c13(w),
         "C14" => props::positions::replay_c14(w),
         _ => {
@@ -105,6 +110,21 @@ fn worker(args: &[String]) -> i32 {
             let p = |i: usize| args.get(i).and_then(|s| s.parse::<usize>().ok()).unwrap_or(0);
             props::parser::worker_nest(p(1), p(2), p(3) != 0, p(4) != 0)
         }
+        Some("run") => {
+            let tier = if args.get(2).map(|s| s.as_str()) == Some("thorough") { Tier::Thorough } else { Tier::Quick };
+            match args.get(1).map(|s| s.as_str()) {
+                Some("C06") => props::ide_sweep::run_inner(props::ide_sweep::Which::C06, tier),
+                Some("C10") => props::ide_sweep::run_inner(props::ide_sweep::Which::C10, tier),
+                Some("C20") => props::ide_sweep::run_inner(props::ide_sweep::Which::C20, tier),
+                _ => 2,
+            }
+        }
+        Some("one") => match args.get(1).map(|s| s.as_str()) {
+            Some("C06") => props::ide_sweep::worker_one(props::ide_sweep::Which::C06, &args[2]),
+            Some("C10") => props::ide_sweep::worker_one(props::ide_sweep::Which::C10, &args[2]),
+            Some("C20") => props::ide_sweep::worker_one(props::ide_sweep::Which::C20, &args[2]),
+            _ => 2,
+        },
         _ => 2,
     }
 }
